@@ -92,7 +92,14 @@ impl Renderer {
     }
 }
 
+fn raw_is_compound_text(s: &str) -> bool {
+    s.contains("&&") || s.contains("||") || s.contains(" | ") || s.contains("; ") || s.starts_with("! ") || s.starts_with("time ") || s.ends_with('&')
+}
+
 fn is_single_command(s: &Stmt) -> bool {
+    if let Stmt::Raw(t) = s {
+        return !raw_is_compound_text(t);
+    }
     // `eval` as a direct pipeline stage is wrapped in braces too: under errexit bash 5.2 reports
     // status 1 instead of the failing command's status for a bare `eval` stage (oracle quirk)
     !matches!(s, Stmt::AndOr { .. } | Stmt::Not(_) | Stmt::Pipe(_) | Stmt::Eval(_))
@@ -149,6 +156,11 @@ impl Renderer {
                 self.stmt(s, out);
                 out.push_str("; }");
             }
+            Stmt::Raw(t) if raw_is_compound_text(t) => {
+                out.push_str("{ ");
+                out.push_str(t);
+                out.push_str("; }");
+            }
             _ => self.stmt(s, out),
         }
     }
@@ -167,6 +179,11 @@ impl Renderer {
             Stmt::Not(inner) => {
                 out.push_str("! ");
                 match &**inner {
+                    Stmt::Raw(t) if raw_is_compound_text(t) => {
+                        out.push_str("{ ");
+                        out.push_str(t);
+                        out.push_str("; }");
+                    }
                     Stmt::Not(_) | Stmt::AndOr { .. } => {
                         out.push_str("{ ");
                         self.stmt(inner, out);
